@@ -303,7 +303,18 @@ static void write_objective (
 
 	if (lp->probname != NULL)
 	{
-		EGLPNUM_TYPENAME_ILLprint_report (lp, "Problem\n %s\n", lp->probname);
+		/* the reader takes one blank-delimited field as the name and a backslash
+		 * starts a comment: a name that cannot be read back as one field is left
+		 * out (the reader then supplies its default name) */
+		const char *q = lp->probname;
+		int plain = (*q != '\0');
+		for (; *q; q++)
+		{
+			if (*q == '\\' || (unsigned char) *q <= ' ' || *q == 127)
+				plain = 0;
+		}
+		if (plain)
+			EGLPNUM_TYPENAME_ILLprint_report (lp, "Problem\n %s\n", lp->probname);
 	}
 	if (lp->objsense == EGLPNUM_TYPENAME_ILL_MIN)
 	{
